@@ -39,30 +39,16 @@ def rule_helper(ctx, R):
         if n not in fn:
             ctx.missing("H-ITEM", "BuildHelper::" + n)
             return
-    # private helpers by role
-    # the ring-offset function: the crate-local callee whose result indexes self.items
-    offset = None
-    for b_ in fn.values():
-        for s_ in Sites(lib, b_).calls:
-            if core.callee_base(s_["key"]) in ("core::ops::Index::index", "core::ops::IndexMut::index_mut") and m(F(Par(1), "items"), s_["args"][0]):
-                ix = s_["args"][1]
-                if ix[0] == "call" and isinstance(ix[1], str):
-                    cand = [x for x in fn.values() if ix[1] == core.strip_generics(x.path) or ix[1].endswith("::" + x.name)]
-                    if cand:
-                        offset = cand[0]
-    capacity = next((b for b in fn.values() if m(C("alloc::vec::Vec::len", F(Par(1), "items")), _ret(lib, b)[0]) and b.arg_count == 1), None)
-    if offset is None or capacity is None:
-        ctx.missing("H-OFFSET", "ring offset / capacity functions of the helper")
-        return
-    getters = [b for b in fn.values() if m(E(F(Par(1), "items"), C(anykey, Par(1), Par(2), site=None)), _ret(lib, b)[0]) and b is not offset]
-    acc_keys = {g.key for g in getters}
+    # Rules are phrased on the NORMAL FORM (core.normalise_crate): the helper's private accessors (capacity / offset / get_ref /
+    # get_mut / reset — whatever they are called, or none at all) are inlined, so a slot access is always
+    #     self.items[idx % self.items.len()]
+    # behind an inlined `assert!(self.active_index_range().contains(&idx))`.
+    cap = C("alloc::vec::Vec::len", F(Par(1), "items"))
 
     def item(idx):
-        """items[offset(idx)] reached through one of the helper's accessors"""
-        return C(lambda k: any(k == core.strip_generics(g.path) or k.endswith("::" + g.name) for g in getters), Par(1), idx)
+        return E(F(Par(1), "items"), B("Rem", idx, cap))
 
     _list_item(ctx, lib)
-    cap = C(lambda k: k.endswith("::" + capacity.name), Par(1))
     nel = C(H + "::num_elements", Par(1))
 
     # ---- H-RANGE
@@ -81,32 +67,45 @@ def rule_helper(ctx, R):
                                                        ("end", B("Mul", F(abr, "end"), F(Par(1), "block_len"))))), t)
         ctx.check(ok, "H-RANGE", fn["active_index_range"], "active-index-range", fn["active_index_range"].span,
                   "active indices = active blocks scaled by block_len on both ends; found %s" % show(t), show(t))
-    # ---- H-OFFSET
-    t, ofv = _ret(lib, offset)
-    ok = m(B("Rem", Par(2), cap), t)
-    ctx.check(ok, "H-OFFSET", offset, "idx-mod-capacity", offset.span, "ring offset = idx %% capacity(); found %s" % show(t), show(t))
-    S = Sites(lib, offset)
-    cont = S.keyed(lambda k: k.endswith("Range::contains"))
-    okc = len(cont) == 1 and m(C(H + "::active_index_range", Par(1)), cont[0]["args"][0]) and m(Par(2), cont[0]["args"][1])
-    if okc:
-        sw = switches_on(S.root, lambda d: d[0] == "call" and d[3] == (offset.path, cont[0]["bb"]))
-        okc = len(sw) == 1
-        if okc:
-            tt, ff = bool_arms(sw[0][1])
-            okc = all(r not in offset.reach(ff) for r in offset.return_blocks())
-    ctx.check(okc, "H-OFFSET", offset, "active-range-assert", offset.span,
-              "every slot access asserts that the index lies in the active range (an evicted or future slot must never be touched silently)")
-    t, _ = _ret(lib, capacity)
-    # ---- H-ACCESS: items is indexed only with offset(idx)
+    # ---- H-OFFSET / H-ACCESS: every access to self.items, anywhere in the helper, is items[idx % items.len()] behind the
+    #      active-range assertion on that same idx
     n = 0
-    for b in fn.values():
+    for b in list(fn.values()) + lib.find_bodies(adt=VI, trait="core::iter::Iterator", name="next"):
         S = Sites(lib, b)
+        conts = [s for s in S.keyed(lambda k: k.endswith("Range::contains"))]
         for s in S.calls:
-            if core.callee_base(s["key"]) in ("core::ops::Index::index", "core::ops::IndexMut::index_mut") and m(F(Par(1), "items"), s["args"][0]):
+            if core.callee_base(s["key"]) in ("core::ops::Index::index", "core::ops::IndexMut::index_mut") and \
+                    s["args"][0][0] == "field" and s["args"][0][3] == "items" and s["args"][0][2] == H:
                 n += 1
-                ctx.check(m(C(lambda k: k.endswith("::" + offset.name), Par(1), ANY), s["args"][1]), "H-ACCESS", b, "items-indexed-by-offset:" + b.name, b.loc(s["bb"]),
-                          "self.items may only be indexed with the ring offset of an element index; found %s" % show(s["args"][1]), show(s["args"][1]))
-    ctx.check(n >= 3, "H-ACCESS", H, "items-access-sites", "", "expected >= 3 indexing sites of self.items; saw %d" % n)
+                ix = s["args"][1]
+                env = {}
+                okm = m(B("Rem", V("idx"), C("alloc::vec::Vec::len", F(ANY, "items", H))), ix, env)
+                ctx.check(okm, "H-OFFSET", b, "idx-mod-capacity:" + b.name, b.loc(s["bb"]),
+                          "a slot access must be self.items[idx %% self.items.len()] (ring offset of an element index); found %s" % show(ix), show(ix))
+                if not okm:
+                    continue
+                idx = env["idx"]
+                g = False
+                for c_ in conts:
+                    if core.same(c_["args"][1], idx) and m(C(H + "::active_index_range", ANY), c_["args"][0]):
+                        sw = switches_on(S.root, lambda d: d[0] == "call" and d[3] == (b.path, c_["bb"]))
+                        for sbi, stj, d in sw:
+                            tt, ff = bool_arms(stj)
+                            if b.edge_guards((sbi, tt), s["bb"]) and ff is not None and all(r not in b.reach(ff) for r in b.return_blocks()):
+                                g = True
+                ctx.check(g, "H-OFFSET", b, "active-range-assert:" + b.name, b.loc(s["bb"]),
+                          "every slot access asserts that its index lies in the active range (an evicted or future slot must never be "
+                          "touched silently); access at %s" % show(idx)[:120])
+    ctx.check(n >= 10, "H-ACCESS", H, "items-access-sites", "", "expected >= 10 slot access sites in the helper; saw %d" % n)
+    # items is touched nowhere outside the helper
+    for b in lib.bodies.values():
+        if b.j.get("impl_adt") in (H, VI) or b.is_closure and (b.j.get("impl_adt") in (H, VI)):
+            continue
+        for bi, si, st in b.stmts():
+            if st["k"] == "assign":
+                for pl in _read_places(st) + [st["lhs"]]:
+                    if any(pe["k"] == "field" and pe.get("adt") == H and pe["name"] == "items" for pe in pl["proj"]):
+                        ctx.bad("H-ACCESS", b, "items-outside-helper", b.loc(bi, si), "self.items is accessed outside the helper")
     # ---- KNOB-CONF / H-NEW
     nb = fn["new"]
     S = Sites(lib, nb)
@@ -297,7 +296,10 @@ def _push_block(ctx, lib, fn, item, cap, nel):
     oldp = lambda t, e: core.same(t, old)
     newm1 = B("Sub", B("Add", oldp, bl), K(1))
     i = P(C(anykey, ANY, site=(b.path, pulls[0]["bb"])))
-    rs = [s for s in S.calls if s["c"].adt == H and s["name"] == "reset"]
+    # "reset": the new slot is overwritten with a default item (inlined normal form of any reset helper)
+    rs = [{"bb": x["bb"], "args": [None, x["tgt"][2][2] if x["tgt"][2][0] == "bin" else x["tgt"][2]]} for x in S.stores
+          if x["tgt"][0] == "elem" and m(F(Par(1), "items"), x["tgt"][1]) and x["tgt"][2][0] == "bin" and x["tgt"][2][1] == "Rem"
+          and x["val"][0] == "call" and "Default::default" in str(x["val"][1])]
     nxt = _stores_via(S, "next_mut")
     prv = _stores_via(S, "prev_mut")
 
